@@ -80,6 +80,9 @@ def install_numpy_load_seam():
             # not a simulated client, or the harness's own use of numpy.load
             return _real_np_load(file, *a, **k)
         name = getattr(file, "name", None) if not isinstance(file, (str, bytes)) else file
+        if not isinstance(name, (str, bytes)) and not hasattr(name, "__fspath__"):
+            # an in-memory buffer: not storage - whatever filled it was the read
+            return _real_np_load(file, *a, **k)
         try:
             if hasattr(file, "read"):
                 data = file.read()
@@ -283,6 +286,9 @@ class SimCondition:
                 cl.on_sync("cond-wait")
                 if timeout is None:
                     cl.wait_for(lambda: self._gen != gen)
+                elif self._gen == gen:
+                    # a timed wait: everybody else runs first, then it may time out
+                    cl.yield_now()
             return self._gen != gen
         finally:
             if cl is not None and cl.op is not None and self._lock.owner is not None:
@@ -331,6 +337,83 @@ class SimSemaphore:
 
     def __exit__(self, *a):
         self.release()
+
+
+import concurrent.futures as _cf
+import queue as _queue
+
+
+class SimFuture(_cf.Future):
+    """concurrent.futures.Future whose waiters park in the scheduler."""
+
+    def __init__(self):
+        super().__init__()
+        self._condition = SimCondition()
+
+
+class SimExecutor:
+    """ThreadPoolExecutor as the library sees it: the submitted callable runs to
+    completion in the submitting client (a legal schedule of a real pool: the
+    worker picks the task up at once and is never pre-empted by its submitter);
+    its line events are pre-emption and fault points like any other."""
+
+    def __init__(self, *a, **k):
+        pass
+
+    def submit(self, fn, /, *a, **k):
+        f = SimFuture()
+        try:
+            f.set_result(fn(*a, **k))
+        except Exception as e:  # noqa
+            f.set_exception(e)
+        return f
+
+    def map(self, fn, *its, timeout=None, chunksize=1):
+        fs = [self.submit(fn, *args) for args in zip(*its)]
+        return (f.result() for f in fs)
+
+    def shutdown(self, wait=True, cancel_futures=False):
+        pass
+
+    def __enter__(self):
+        return self
+
+    def __exit__(self, *a):
+        return False
+
+
+def _sim_queue(base):
+    class _Q(base):
+        def __init__(self, maxsize=0):
+            super().__init__(maxsize)
+            self.mutex = SimLock()
+            self.not_empty = SimCondition(self.mutex)
+            self.not_full = SimCondition(self.mutex)
+            self.all_tasks_done = SimCondition(self.mutex)
+    _Q.__name__ = "Sim" + base.__name__
+    return _Q
+
+
+SimQueue = _sim_queue(_queue.Queue)
+SimLifoQueue = _sim_queue(_queue.LifoQueue)
+SimPriorityQueue = _sim_queue(_queue.PriorityQueue)
+
+
+class _ModuleProxy:
+    def __init__(self, real, **over):
+        self.__dict__["_real"] = real
+        self.__dict__.update(over)
+
+    def __getattr__(self, name):
+        return getattr(self._real, name)
+
+
+_cf_proxy = _ModuleProxy(_cf, Future=SimFuture, ThreadPoolExecutor=SimExecutor)
+_queue_proxy = _ModuleProxy(_queue, Queue=SimQueue, LifoQueue=SimLifoQueue,
+                            PriorityQueue=SimPriorityQueue)
+_SUBST = {id(_cf): _cf_proxy, id(_queue): _queue_proxy, id(_cf.Future): SimFuture,
+          id(_cf.ThreadPoolExecutor): SimExecutor, id(_queue.Queue): SimQueue,
+          id(_queue.LifoQueue): SimLifoQueue, id(_queue.PriorityQueue): SimPriorityQueue}
 
 
 class _TimeProxy:
@@ -420,6 +503,8 @@ def _patch_library_locks(mods):
                 d[k] = SimCondition
             elif v is _threading.Semaphore or v is _threading.BoundedSemaphore:
                 d[k] = SimSemaphore
+            elif id(v) in _SUBST:
+                d[k] = _SUBST[id(v)]
 
 
 # ---------------------------------------------------------------------------
@@ -451,6 +536,32 @@ _not_reloadable = set()
 _baseline = None
 KNOB_SHIFT = 0          # set per run from the plan (world.run_plan); see _shrink_new_constants
 _API = None
+
+
+_SHIFT_OK = {}
+KNOB_VETOED = 0
+
+
+def effective_shift(shift):
+    """Shrinking the new numeric constants is a configuration variation that must
+    leave the library usable: if, with the shrunk values, a shipped table no
+    longer loads in a pristine library without any fault (the constant was a
+    validity bound, not a tuning knob), the shrinking is vetoed for this
+    process - deterministically, a pure function of the code and the shift."""
+    global KNOB_SHIFT, KNOB_VETOED
+    if not shift:
+        return 0
+    if shift not in _SHIFT_OK:
+        from . import tables
+        KNOB_SHIFT = shift
+        try:
+            _SHIFT_OK[shift] = tables.knob_probe()
+        finally:
+            KNOB_SHIFT = 0
+    if not _SHIFT_OK[shift]:
+        KNOB_VETOED += 1
+        return 0
+    return shift
 
 
 def _knob(value):
